@@ -51,7 +51,7 @@ def S(n):
 
 def grid(tier):
     n = 3 if tier == "quick" else 4
-    r, c = (2, 2) if tier == "quick" else (2, 3)
+    r, c = (2, 2) if tier == "quick" else (3, 3)
     X, Y, P = ("var", "x"), ("var", "y"), ("param", "p")
     v, w = ("vec", "v", n), ("vec", "w", n)
     A, B = ("mat", "A", r, c), ("mat", "B", r, c)
@@ -62,6 +62,9 @@ def grid(tier):
     vec_r = [("py", "float", S("r")), ("py", "int", 2), ("np", "float64", 2.5), ("np", "int64", 3), w, ("vbin", "*", w, ("sc", 2.0)),
              ("lst", [S(f"r{i}") for i in range(n)]), ("arr", [S(f"r{i}") for i in range(n)])]
     mat_l = [A, ("mbin", "+", A, ("sc", 1.0)), ("mT", ("mat", "C", c, r))]
+    if r == c:
+        mat_l.append(("mat", "S", r, r, True))                 # symmetric sharing: S[i,j] is S[j,i]
+        mat_l.append(("mT", ("mat", "S", r, r, True)))
     mat_r = [("py", "float", S("r")), ("py", "int", 2), ("np", "float64", 2.5), ("arr2", [[S(f"r{i}{j}") for j in range(c)] for i in range(r)]), B, ("mbin", "*", B, ("sc", 2.0))]
     out = []
     for ls, rs in ((scal_l, scal_r), (vec_l, vec_r), (mat_l, mat_r)):
